@@ -34,6 +34,19 @@ EnvSets == [
   posangle |-> << E3(PiQ(1, 3), PiQ(1, 4), PiQ(1, 12)),
                   E3(PiQ(5, 6), PiQ(1, 2), PiQ(1, 1)),
                   E3(PiQ(2, 3), PiQ(1, 6), PiQ(3, 2)) >>,
+  \* assumption-indexed assignments for x (y positive, z real): C34 / C35
+  xreal |-> << E3(Q(2, 1), Q(3, 1), Q(5, 1)), E3(Q(-3, 1), Q(1, 2), Q(-1, 1)), E3(Q(1, 2), Q(4, 1), Q(2, 1)),
+               E3(Q(0, 1), Q(2, 1), Q(1, 1)), E3(Q(-1, 2), Q(1, 3), Q(-2, 1)), E3(Q(-8, 1), Q(2, 1), Q(3, 1)) >>,
+  xneg |-> << E3(Q(-2, 1), Q(3, 1), Q(5, 1)), E3(Q(-1, 2), Q(1, 2), Q(-1, 1)), E3(Q(-8, 1), Q(2, 1), Q(1, 3)), E3(Q(-1, 1), Q(4, 1), Q(2, 1)) >>,
+  xnonneg |-> << E3(Q(0, 1), Q(3, 1), Q(5, 1)), E3(Q(2, 1), Q(1, 2), Q(-1, 1)), E3(Q(1, 4), Q(2, 1), Q(1, 3)), E3(Q(9, 1), Q(4, 1), Q(2, 1)) >>,
+  xnonpos |-> << E3(Q(0, 1), Q(3, 1), Q(5, 1)), E3(Q(-2, 1), Q(1, 2), Q(-1, 1)), E3(Q(-1, 4), Q(2, 1), Q(1, 3)), E3(Q(-9, 1), Q(4, 1), Q(2, 1)) >>,
+  xint |-> << E3(Q(0, 1), Q(3, 1), Q(5, 1)), E3(Q(-2, 1), Q(1, 2), Q(-1, 1)), E3(Q(3, 1), Q(2, 1), Q(1, 3)), E3(Q(-9, 1), Q(4, 1), Q(2, 1)) >>,
+  xposint |-> << E3(Q(1, 1), Q(3, 1), Q(5, 1)), E3(Q(2, 1), Q(1, 2), Q(-1, 1)), E3(Q(3, 1), Q(2, 1), Q(1, 3)), E3(Q(9, 1), Q(4, 1), Q(2, 1)) >>,
+  xnonzero |-> << E3(Q(2, 1), Q(3, 1), Q(5, 1)), E3(Q(-3, 1), Q(1, 2), Q(-1, 1)), E3(G(1, 1, 2, 1), Q(4, 1), Q(2, 1)), E3(G(0, 1, -1, 1), Q(2, 1), Q(1, 1)) >>,
+  xrat |-> << E3(Q(2, 3), Q(3, 1), Q(5, 1)), E3(Q(-3, 4), Q(1, 2), Q(-1, 1)), E3(Q(0, 1), Q(4, 1), Q(2, 1)), E3(Q(-5, 1), Q(2, 1), Q(1, 1)) >>,
+  \* no assumption on x: also points off the real axis
+  xany |-> << E3(Q(2, 1), Q(3, 1), Q(5, 1)), E3(Q(-3, 1), Q(1, 2), Q(-1, 1)), E3(G(1, 1, 2, 1), Q(4, 1), Q(2, 1)),
+              E3(G(0, 1, -1, 1), Q(2, 1), Q(1, 1)), E3(G(-1, 2, 3, 2), Q(1, 3), Q(-2, 1)), E3(Q(0, 1), Q(2, 1), Q(3, 1)) >>,
   angle |-> << E3(PiQ(1, 3), PiQ(-1, 4), PiQ(1, 12)),
                E3(PiQ(5, 6), PiQ(1, 2), PiQ(-1, 1)),
                E3(Q(0, 1), PiQ(1, 1), PiQ(7, 12)),
